@@ -40,6 +40,10 @@ pub enum Fault {
     /// challenge of `pad` ASCII bytes followed by 100 three-byte characters): the client-exception
     /// path with a reply text that is long, not ASCII, and cut at a generated alignment
     ClientExceptionLongText { pad: u8 },
+    /// heartbeats off; the transport stops accepting writes, the server closes the connection
+    /// (or provokes a client exception) and then hangs up: the client can never flush its
+    /// answer, the end of the stream is what must end the connection
+    StalledClosingThenEof { server_close: bool },
 }
 
 #[derive(Clone, Debug, Serialize, Deserialize, PartialEq)]
@@ -446,6 +450,39 @@ pub fn exec(c: &Case) -> Outcome {
             // two things went wrong; either is a root cause
             want.push("MissedServerHeartbeats".into());
         }
+        Fault::StalledClosingThenEof { server_close } => {
+            wire.set_budget(Some(0));
+            // (the close travels as raw bytes: the broker must not answer anything after it)
+            sess.broker.call(|b, _| b.silent = true);
+            if *server_close {
+                wire.push(encode(&AMQPFrame::Method(
+                    0,
+                    AMQPClass::Connection(Conn::Close(connection::Close {
+                        reply_code: 320,
+                        reply_text: "going away".into(),
+                        class_id: 0,
+                        method_id: 0,
+                    })),
+                )));
+                want.push("ServerClosedConnection { code: 320, message: \"going away\" }".into());
+            } else {
+                let f = AMQPFrame::Header(
+                    0,
+                    60,
+                    Box::new(AMQPContentHeader {
+                        class_id: 60,
+                        weight: 0,
+                        body_size: 1,
+                        properties: Default::default(),
+                    }),
+                );
+                wire.push(encode(&f));
+                want.push("ClientException".into());
+            }
+            std::thread::sleep(Duration::from_millis(5));
+            wire.push_eof();
+            want.push("UnexpectedSocketClose".into());
+        }
     }
     let _ = base;
     // for a write fault the client must be writing: the connection thread opens channels until it fails
@@ -582,6 +619,7 @@ fn strat(_t: Tier) -> BoxedStrategy<Case> {
         4 => (0u8..=255).prop_map(|pad| Fault::ClientExceptionLongText { pad }),
         1 => Just(Fault::MissedHeartbeats),
         1 => any::<bool>().prop_map(|server_close| Fault::StalledClosingThenSilent { server_close }),
+        4 => any::<bool>().prop_map(|server_close| Fault::StalledClosingThenEof { server_close }),
     ];
     let act = prop_oneof![2 => Just(Activity::Idle), 3 => Just(Activity::BlockedCall), 3 => Just(Activity::Busy)];
     (proptest::collection::vec((0u8..=2, act), 1..=4), fault, prop::bool::weighted(0.25), any::<u64>())
@@ -597,7 +635,7 @@ fn strat(_t: Tier) -> BoxedStrategy<Case> {
 pub fn parts() -> Vec<Box<dyn PartDyn>> {
     vec![Box::new(Part::<Case> {
         name: "e2e",
-        rule: "live sessions (1-4 channels on threads: idle, with a synchronous call left in flight by a withheld reply, or publishing and calling in a loop; 0-2 consumers each; optionally a delivery left half assembled) hit by one fault: EOF or an I/O error (5 kinds) at a generated byte offset of the server->client stream, an I/O error on the n-th client write, a malformed frame (3 constructions) at a frame boundary, a server Connection.Close(code, text), a frame forcing the client-exception path (content on channel 0, or an unexpected method whose description is long, not ASCII and cut at a generated alignment), or (rarely, 1 s heartbeat) server silence; oracle: the connection ends and the transport is released, every call in flight fails, later synchronous calls fail, nowait calls fail once close has returned, every consumer queue terminates, Connection::close names the root cause (variant, io kind, code/text), no panic, everything within seconds; non-trivial = the fault struck with a call in flight on another thread or with content half assembled; distinct by case hash",
+        rule: "live sessions (1-4 channels on threads: idle, with a synchronous call left in flight by a withheld reply, or publishing and calling in a loop; 0-2 consumers each; optionally a delivery left half assembled) hit by one fault: EOF or an I/O error (5 kinds) at a generated byte offset of the server->client stream, an I/O error on the n-th client write, a malformed frame (3 constructions) at a frame boundary, a server Connection.Close(code, text), a frame forcing the client-exception path (content on channel 0, or an unexpected method whose description is long, not ASCII and cut at a generated alignment), a server close or client exception whose answer cannot be flushed (transport stalled) followed by the end of the stream, or (rarely, 1 s heartbeat) server silence; oracle: the connection ends and the transport is released, every call in flight fails, later synchronous calls fail, nowait calls fail once close has returned, every consumer queue terminates, Connection::close names the root cause (variant, io kind, code/text), no panic, everything within seconds; non-trivial = the fault struck with a call in flight on another thread or with content half assembled; distinct by case hash",
         cases: |t| t.pick(2000, 30_000),
         threads: 12,
         strategy: strat,
